@@ -20,6 +20,8 @@ PROP = {'drive': ['T2'], 'modules': ['SfntV.Props.C05'],
                        'C05_progress_pathop_partial',
                        'C05_progress',
                        'C05_quirks_irrelevant',
+                       'C05_progress_calls',
+                       'C05_quirks_irrelevant_calls',
                        'C05_loop_fuel',
                        'C05_step_consumes',
                        'C05_mul_deviates',
@@ -28,30 +30,45 @@ PROP = {'drive': ['T2'], 'modules': ['SfntV.Props.C05'],
  'areas': [('t2', 4000, 120000)],
  'rule': 'distinct case lines (charstring bytes, local/global subroutine tables, default/nominal width); '
          'non-trivial = more than 8 code bytes or a designed boundary/fault program',
- 'partial': ['C05_progress (WF p -> the specification interpreter returns a glyph) and C05_quirks_irrelevant (WF p -> '
-             'Agrees p -> interp goQuirks = interp strict) are proved for whole programs of the static grammar WF '
-             '(Spec/T2.lean wfCheck): literal operands in all encodings (|v| <= 32000), optional leading width on the '
-             'first stack-clearing operator, hstem/vstem/hstemhm/vstemhm, hintmask/cntrmask with implicit vstem '
-             'operands and ceil(nStems/8) mask bytes, rmoveto/hmoveto/vmoveto, all ten path operators and the four '
-             'flex forms, abs add sub neg mul eq and or not drop dup exch ifelse random, endchar. '
-             'NOT in the grammar / NOT proved: subroutine calls (callsubr, callgsubr, return: WF subroutine tables, '
-             'depth <= 10) and the value-dependent operators div, sqrt, put, get, index, roll (their legality depends '
-             'on operand values, which a stack-effect grammar does not track); for those the agreement of the Go '
-             'decoder with the specification rests on the D stream t2.spec.',
-             'Agrees (decidable, Spec.T2.agreesCheck) excludes exactly: mul (finding C05-mul); add and sub (their '
-             'results are not statically within +-32000, outside of which the Go decoder clamps: finding C05-clamp); '
-             'flex1 and hflex1 (they derive one delta as a sum of up to five operands, which can leave +-32000: '
-             'C05-clamp). Literal operands beyond +-32000 are excluded by WF itself (C05-clamp).',
-             'Fuel: C05_loop_fuel / C05_step_consumes are proved for every quirk setting.',
-             'The V stream t2.wf compares the generator\'s own claim "this program is in WF / in Agrees" with the '
-             'Lean checkers evaluated by the driver on the bytes (tokenizer + wfCheck + agreesCheck + canonical '
-             're-encoding); the distribution t2.theorem-domain shows how many sampled programs lie in the domain of '
-             'the two theorems.',
+ 'partial': ['PROVED, whole programs: C05_progress / C05_quirks_irrelevant (call-free programs of the static grammar WF) '
+             'and C05_progress_calls / C05_quirks_irrelevant_calls (programs with callsubr/callgsubr into stack-neutral '
+             'subroutine tables: bodies = complete grammar tokens, possibly with further calls, closed by return or '
+             'ending the glyph with endchar; every biased index valid, all three bias classes, tables <= 65536 '
+             'entries, <= 10 nested calls, every body well formed in the state of each call site; checker wfCheckP). '
+             'Grammar: literal operands in all encodings (|v| <= 32000), optional leading width on the first '
+             'stack-clearing operator, hstem/vstem/hstemhm/vstemhm, hintmask/cntrmask with implicit vstem operands '
+             'and ceil(nStems/8) mask bytes, the three movetos, ten path operators + four flex forms, abs add sub neg '
+             'mul eq and or not drop dup exch ifelse random, endchar.',
+             'NOT in the grammar / NOT proved: the value-dependent operators div, sqrt, put, get, index, roll (their '
+             'legality depends on operand values; the planned abstract interpretation with known-literal slots was '
+             'not done); subroutine bodies that are not sequences of complete tokens (e.g. a body that supplies only '
+             'operands for an operator in the caller IS covered, a body that ends in the middle of a mask is not); '
+             'return executed at top level. For these the agreement of the Go decoder with the specification rests '
+             'on the D stream t2.spec.',
+             'Agrees (decidable: agreesCheck / agreesCheckP) excludes exactly: mul (finding C05-mul); add and sub '
+             '(results not statically within +-32000, outside of which the Go decoder clamps: finding C05-clamp); '
+             'flex1 and hflex1 (they derive one delta as a sum of up to five operands: C05-clamp). Literal operands '
+             'beyond +-32000 are excluded by WF itself (C05-clamp).',
+             'Corners of TN5177 outside the theorems, each probed on every run against the specification interpreter '
+             '(D stream, group t2.outside-theorem-probe; all agree): seac-style endchar with 4 operands (with and '
+             'without width) - both accept and ignore the operands (the accented-character composition itself is not '
+             'modelled on either side); deprecated dotsection - both clear the stack; flex depth operand (13th) - '
+             'ignored by both (rendering hint only); vstem operands directly on a hintmask without any hstem, '
+             'hstem after vstem - accepted by both (the grammar WF is stricter than TN5177 here); hintmask before '
+             'any stem and stem after a hintmask - rejected by both; random - both use the constant 40501/65536 '
+             '(TN5177 allows any value in (0,1]; a decoder using another value would still conform).',
+             'Operand-count leniency of the Go decoder (moveto/path operators/endchar with too few or stray operands '
+             'are silently ignored instead of rejected, e.g. "1 2 endchar") is modelled by three Quirks flags and '
+             'probed (V only); it is not among the fault classes C05_rejects quantifies over.',
+             'The V stream t2.wf carries the generator\'s claim in the case line (claim=wf+agrees|wf|nowf) and '
+             'compares it with the Lean checkers evaluated by the driver on the bytes (tokenizer following calls, '
+             'wfCheck/wfCheckP, agreesCheck/agreesCheckP, canonical re-encoding of program and tables); '
+             't2.theorem-domain / t2.theorem-domain-calls show how many sampled programs lie in the theorems\' '
+             'domain, with and without subroutine calls.',
+             'Fuel: C05_loop_fuel / C05_step_consumes for every quirk setting; nested bodies: runAt uses '
+             'body.length + 1 per body, justified by the same lemma (Proofs/T2Calls.lean loop_of_run).',
              'C05_rejects_missing_endchar covers the empty program; "no endchar anywhere => error" for arbitrary '
-             'programs is checked by correspondence (fault class missing-endchar), not proved.',
-             'Operand-count leniency of the Go decoder (moveto/path operators with too few or stray operands are '
-             'silently ignored instead of rejected) is modelled by three Quirks flags; it is not among the fault '
-             'classes C05_rejects quantifies over.'],
+             'programs is checked by correspondence (fault class missing-endchar), not proved.'],
  'modelled_not_verified': ['float64 evaluation in decodeCharString: the model is exact 16.16 fixed point; it equals '
                            'the float computation as long as values stay multiples of 2^-16 below 2^37. div with an '
                            'inexact quotient and sqrt of a non-square leave that domain (model flag St.inexact): '
@@ -71,7 +88,7 @@ LEVEL = {'text': 'Proof + correspondence: ONE Lean Type 2 interpreter parameteri
          'Proved for all inputs: opcode numbers/limits/bias rule as regenerated from the source equal TN5177; operand '
          'decoding of all five encodings; rejection of each single-fault class; operator lemmas (rlineto, hvcurveto '
          'trailing operand, flex1 axis rule, hflex); progress of every path operator with a legal operand count. '
-         'Whole-program progress and quirk-irrelevance are proved for the static grammar without subroutine calls and value-dependent operators.',
+         'Whole-program progress and quirk-irrelevance are proved for the static grammar including calls into stack-neutral subroutine tables, without the six value-dependent operators.',
  'note': 'Trusted: Lean kernel + 3 standard axioms; hand-written model tied by sampled correspondence; float64 vs '
          'exact fixed point outside div/sqrt; TN5177 as remembered.',
  'technique': 'Lean 4 executable interpreter (model = spec + quirks), theorems by case analysis/omega/decide, '
